@@ -454,8 +454,11 @@ def cleanup_machine_start(cases):
                 c["id"], sg, ", ".join(map(str, c["keys"])), ", ".join(tlc.tla(list(q)) for q in c["bad"]), c["limit"]))
         mod = util.mc_module("MC_C17C", "C17_CleanUp", {"InputsDef": "{" + ",\n ".join(recs) + "}"})
         cfgt = util.cfg(init="Init", next_="Next", invariants=["TypeOK", "CandidatesHitEveryTestedBad", "Antichain", "WithinLimit", "EmitEnd"],
-                        constants={"Inputs": ("<-", "InputsDef")})
+                        constants={"Inputs": ("<-", "InputsDef"), "Mode": '"as_coded"'})
         jobs.append(("MC_C17C", cfgt, {"files": {"MC_C17C.tla": mod}, "timeout": 3000}))
+        if sh == 0:        # the wrong design on the same inputs: TLC must find a candidate that misses a tested bad permutation
+            bad_cfg = util.cfg(init="Init", next_="Next", invariants=["CandidatesHitEveryTestedBad"], constants={"Inputs": ("<-", "InputsDef"), "Mode": '"keep_failing"'})
+            jobs.append(("MC_C17C", bad_cfg, {"files": {"MC_C17C.tla": mod}, "timeout": 3000, "allow_violation": True}))
     ex = concurrent.futures.ThreadPoolExecutor(max_workers=1)
     return ex, ex.submit(tlc.run_many, jobs, 8)
 
@@ -468,6 +471,12 @@ def cleanup_machine_finish(ctx, started, cases):
     ex.shutdown(wait=False)
     by_id = {c["id"]: c for c in cases}
     seen = same = 0
+    if len(results) > 1:
+        wrong = results.pop(1)
+        ctx.add_tlc(wrong, "clean-up machine, failing candidates kept (must be refuted)")
+        if wrong.violated != "CandidatesHitEveryTestedBad":
+            raise tlc.MachineryFailure("C17 clean-up model vacuous: keeping failing candidates was not refuted (%s)" % wrong.violated)
+        ctx.note("cleanup_keep_failing_refuted_by_model", True)
     for r in results:
         ctx.add_tlc(r, "clean-up machine: candidates hit every tested bad permutation")
         for rec in r.records:
